@@ -69,6 +69,7 @@ func main() {
 	hardforks()
 	genesisStore()
 	inventories()
+	stateful()
 }
 
 // ---------------------------------------------------------------------------------------------
@@ -1158,7 +1159,7 @@ func receiptsTokens(d *types.Receipts) string {
 func randName(slash bool) string {
 	n := rng.Intn(12)
 	b := make([]byte, n)
-	const cs = "abcdefghijklmnopqrstuvwxyz.-_0123456789"
+	const cs = "abcdefghijklmnopqrstuvwxyz.-_0123456789ABCDEFGHIJKLMNOPQRSTUVWXYZ"
 	for i := range b {
 		switch {
 		case slash && rng.Chance(1, 6):
@@ -1190,7 +1191,7 @@ func randChainID() (*types.ChainID, bool) {
 	slash := rng.Chance(1, 8)
 	c := &types.ChainID{Version: randI32(), PublicNet: rng.Bool(), MainNet: rng.Bool(), Magic: randName(slash), Consensus: randName(slash)}
 	if rng.Chance(1, 3) {
-		c.Magic, c.Consensus = []string{"dev.chain", "aergo.io", "testnet.aergo.io"}[rng.Intn(3)], []string{"dpos", "raft", "sbp"}[rng.Intn(3)]
+		c.Magic, c.Consensus = []string{"dev.chain", "aergo.io", "testnet.aergo.io"}[rng.Intn(3)], []string{"dpos", "raft", "sbp", "RAFT", "Dpos", "SBP"}[rng.Intn(6)]
 	}
 	has := strings.Contains(c.Magic, "/") || strings.Contains(c.Consensus, "/")
 	return c, !has
@@ -1865,6 +1866,213 @@ func inventories() {
 				}
 				if back.Equals(c) {
 					run.Fail("ChainID.Equals ignores field "+f, rep)
+				}
+			}
+		}
+	}
+}
+
+// ---------------------------------------------------------------------------------------------
+// 8. the same bindings in the STATEFUL order, on one object: the digest / root / bytes are taken, the object is changed in
+// place through what its API hands out (live *Receipt pointers and the list of Receipts.Get(), the fields of a header, body,
+// chain id), and taken again. The second answer must be the one a freshly built object with the same content gives: any
+// memoisation inside the object must be invisible. (The one documented memo, Block.Hash filled in by BlockHash(), is cleared
+// before the comparison: a NEW cache is what this looks for.)
+
+func statefulFail(what string, rep map[string]interface{}) {
+	run.Fail("after a change made in place on the same object "+what+" still is what it was before the change (differs from a freshly built object with the same content)", rep)
+}
+
+func freshReceipts(c *types.Receipts, v2 bool) *types.Receipts {
+	var f types.Receipts
+	var rs []*types.Receipt
+	for _, r := range c.Get() {
+		rs = append(rs, copyOf(r))
+	}
+	f.Set(rs)
+	f.SetHardFork(hfCfg, c.GetBlockNo())
+	if bf := types.VerifC19Bloom(c); bf != nil {
+		if err := f.MergeBloom(bf); err != nil {
+			panic(err)
+		}
+	}
+	return &f
+}
+
+func stateful() {
+	hdrFields := exportedFields(reflect.TypeOf(types.BlockHeader{}))
+	txFields := exportedFields(reflect.TypeOf(types.TxBody{}))
+	cFields := exportedFields(reflect.TypeOf(types.ChainID{}))
+	rFields := exportedFields(reflect.TypeOf(types.Receipt{}))
+	hdrTypical := map[string]int{"ChainID": 20, "PubKey": 37, "CoinbaseAccount": 33, "Sign": 71, "Consensus": 8}
+	txTypical := map[string]int{"Account": 33, "Recipient": 33, "Amount": 9, "Payload": 60, "GasPrice": 5, "Sign": 71}
+	for i := 0; i < run.Pick(150, 3000); i++ {
+		// ---- the Receipts container: root and stored bytes
+		v2 := rng.Bool()
+		n := 1 + rng.Intn(5)
+		var rs []*types.Receipt
+		for k := 0; k < n; k++ {
+			rs = append(rs, wfReceipt())
+		}
+		var bf *bloom.BloomFilter
+		if rng.Bool() {
+			bf = randBloomFilter()
+		}
+		c := newReceipts(rs, bf, v2)
+		root0 := c.MerkleRoot()
+		raw0, _ := c.MarshalBinary()
+		what := ""
+		live := c.Get()
+		switch rng.Intn(4) {
+		case 0:
+			if n >= 2 {
+				a, b := rng.Intn(n), rng.Intn(n)
+				live[a], live[b] = live[b], live[a] // the list Get() hands out is the container's own
+				what = fmt.Sprintf("receipts %d and %d swapped", a, b)
+				break
+			}
+			fallthrough
+		case 1:
+			k := rng.Intn(n)
+			what = fmt.Sprintf("receipt %d: %s", k, mutateReceipt(live[k], v2))
+		case 2: // what the node does to receipts it serves / executes
+			k := rng.Intn(n)
+			live[k].SetMemoryInfo(rng.Bytes(32), types.BlockNo(rng.Intn(1000)), int32(k))
+			what = fmt.Sprintf("receipt %d: SetMemoryInfo", k)
+		default:
+			k := rng.Intn(n)
+			f := rFields[rng.Intn(len(rFields))]
+			if f == "Bloom" && len(live[k].Bloom) == 0 {
+				live[k].Bloom = bloomBytes(randBloomFilter())
+			} else {
+				changeField(reflect.ValueOf(live[k]).Elem(), f)
+			}
+			what = fmt.Sprintf("receipt %d: field %s", k, f)
+		}
+		f := freshReceipts(c, v2)
+		root1, rootF := c.MerkleRoot(), f.MerkleRoot()
+		run.Eval(fmt.Sprintf("stateful receipts %d %s", i, what), true)
+		run.Count("stateful-receipts")
+		rep := map[string]interface{}{"format": vtag(v2), "change": what, "root_before": hx(root0), "root_after_on_same_object": hx(root1), "root_of_fresh_object": hx(rootF)}
+		if !bytes.Equal(root1, rootF) {
+			statefulFail("the receipts root (Receipts.MerkleRoot)", rep)
+		}
+		raw1, e1 := c.MarshalBinary()
+		rawF, eF := f.MarshalBinary()
+		if (e1 == nil) != (eF == nil) || !bytes.Equal(raw1, rawF) {
+			statefulFail("the stored form of the receipts (Receipts.MarshalBinary)", rep)
+		}
+		_ = raw0
+		// SetHardFork to the other format and back, MergeBloom: the documented ways of changing the container
+		c.SetHardFork(hfCfg, blockNoFor(!v2))
+		f = freshReceipts(c, !v2)
+		if !bytes.Equal(c.MerkleRoot(), f.MerkleRoot()) {
+			statefulFail("the receipts root after SetHardFork", rep)
+		}
+
+		// ---- one receipt: Merkle bytes, leaf hash, storage bytes
+		r := wfReceipt()
+		mb0, _ := merkleBytes(r, v2)
+		gh0 := r.GetHash()
+		what = mutateReceipt(r, v2)
+		fr := copyOf(r)
+		mb1, _ := merkleBytes(r, v2)
+		mbF, _ := merkleBytes(fr, v2)
+		sb1, _ := types.VerifC19MarshalStore(r, v2)
+		sbF, _ := types.VerifC19MarshalStore(fr, v2)
+		run.Eval(fmt.Sprintf("stateful receipt %d %s", i, what), true)
+		run.Count("stateful-receipt")
+		if !bytes.Equal(mb1, mbF) || !bytes.Equal(r.GetHash(), fr.GetHash()) || !bytes.Equal(sb1, sbF) {
+			statefulFail("the Merkle / storage bytes of a receipt", map[string]interface{}{"format": vtag(v2), "change": what, "before": hx(mb0), "leaf_before": hx(gh0)})
+		}
+
+		// ---- transaction: identifier and signing digest
+		b := &types.TxBody{}
+		fill(reflect.ValueOf(b).Elem(), txTypical)
+		tx := &types.Tx{Body: b}
+		wtx := types.NewTransaction(tx)
+		id0, sg0 := tx.CalculateTxHash(), key.CalculateHashWithoutSign(b)
+		_ = wtx.CalculateTxHash()
+		fld := txFields[rng.Intn(len(txFields))]
+		mutateField(reflect.ValueOf(tx.Body).Elem(), fld)
+		fb := cloneBody(tx.Body)
+		run.Eval(fmt.Sprintf("stateful tx %d %s", i, fld), true)
+		run.Count("stateful-tx")
+		rep = map[string]interface{}{"field": fld, "id_before": hx(id0), "sign_digest_before": hx(sg0), "body": strings.TrimSpace(assigns(reflect.ValueOf(tx.Body).Elem()))}
+		if !bytes.Equal(tx.CalculateTxHash(), txID(fb)) || !bytes.Equal(wtx.CalculateTxHash(), txID(fb)) {
+			statefulFail("the transaction identifier (CalculateTxHash)", rep)
+		}
+		if !bytes.Equal(key.CalculateHashWithoutSign(tx.Body), txSign(fb)) {
+			statefulFail("the transaction signing digest (CalculateHashWithoutSign)", rep)
+		}
+		// the tx root over a list whose entries are changed in place
+		txs := []*types.Tx{{Hash: rng.Bytes(32)}, {Hash: rng.Bytes(32)}, {Hash: rng.Bytes(32)}}
+		_ = types.CalculateTxsRootHash(txs)
+		if rng.Bool() {
+			txs[0], txs[2] = txs[2], txs[0]
+		} else {
+			txs[1].Hash = rng.Bytes(32)
+		}
+		if !bytes.Equal(types.CalculateTxsRootHash(txs), types.CalculateTxsRootHash([]*types.Tx{{Hash: txs[0].Hash}, {Hash: txs[1].Hash}, {Hash: txs[2].Hash}})) {
+			statefulFail("the transaction root (CalculateTxsRootHash)", map[string]interface{}{})
+		}
+
+		// ---- block header: identifier and signing message
+		h := &types.BlockHeader{}
+		fill(reflect.ValueOf(h).Elem(), hdrTypical)
+		blk := &types.Block{Header: h}
+		d0, m0 := types.VerifC19CalculateBlockHash(blk), blockMsg(h)
+		bh0 := append([]byte(nil), blk.BlockHash()...) // fills the documented memo Block.Hash
+		fld = hdrFields[rng.Intn(len(hdrFields))]
+		mutateField(reflect.ValueOf(blk.Header).Elem(), fld)
+		fh := cloneHeader(blk.Header)
+		run.Eval(fmt.Sprintf("stateful header %d %s", i, fld), true)
+		run.Count("stateful-header")
+		rep = map[string]interface{}{"field": fld, "digest_before": hx(d0), "sign_message_before": hx(m0), "header": strings.TrimSpace(assigns(reflect.ValueOf(blk.Header).Elem()))}
+		if !bytes.Equal(types.VerifC19CalculateBlockHash(blk), blockID(fh)) {
+			statefulFail("the digest of the block header (calculateBlockHash)", rep)
+		}
+		if !bytes.Equal(blockMsg(blk.Header), blockMsg(fh)) {
+			statefulFail("the block signing message (bytesForDigest)", rep)
+		}
+		// Block.Hash is the documented memo of BlockHash() (Lean: block_id_stale_after_memo; C18-id-not-recomputed): it keeps the old
+		// value. Once it is cleared, BlockHash() must give the digest of the header as it is now.
+		if !bytes.Equal(blk.BlockHash(), bh0) {
+			run.Count("stateful-blockhash-memo-not-kept") // not demanded
+		}
+		blk.Hash = nil
+		if !bytes.Equal(blk.BlockHash(), blockID(fh)) {
+			statefulFail("Block.BlockHash() with the carried Hash cleared", rep)
+		}
+
+		// ---- chain id: bytes of a changed id, Read into an object that already holds another id
+		cid, noSlash := randChainID()
+		b0, err := cid.Bytes()
+		if err != nil || !noSlash {
+			continue
+		}
+		fld = cFields[rng.Intn(len(cFields))]
+		changeField(reflect.ValueOf(cid).Elem(), fld)
+		if strings.Contains(cid.Magic, "/") || strings.Contains(cid.Consensus, "/") {
+			continue
+		}
+		fc := *cid
+		b1, e1 := cid.Bytes()
+		bF, eF := fc.Bytes()
+		run.Eval(fmt.Sprintf("stateful chainid %d %s", i, fld), true)
+		run.Count("stateful-chainid")
+		rep = map[string]interface{}{"field": fld, "bytes_before": hx(b0), "chain_id": fmt.Sprintf("%+v", *cid)}
+		if (e1 == nil) != (eF == nil) || !bytes.Equal(b1, bF) {
+			statefulFail("the chain id bytes (ChainID.Bytes)", rep)
+		}
+		if e1 == nil {
+			used := types.NewChainID()
+			if used.Read(exact(b0)) == nil {
+				eu := used.Read(exact(b1))
+				fr := types.NewChainID()
+				ef := fr.Read(exact(b1))
+				if (eu == nil) != (ef == nil) || (eu == nil && !reflect.DeepEqual(*used, *fr)) {
+					statefulFail("the chain id read (ChainID.Read) into an object that held another id", rep)
 				}
 			}
 		}
